@@ -37,6 +37,11 @@ THEOREMS = [
     "marker_never_in_tree",
     "fuel_monotone",
     "content_fuel_suffices",
+    "standalone_no_is_absent",
+    "loader_fetches_only_named",
+    "foreign_namespace_names_nothing",
+    "lookalikes_change_no_fetch",
+    "lookalike_names_nothing_in_context",
     "feature_on_reaches_outside",
 ]
 
@@ -1524,6 +1529,68 @@ def named_refs(data, base_url):
     return refs
 
 
+NS_IDS = {None: 0, XSD_NS: 1, WSDL_NS: 2}
+LOCAL_IDS = {"import": 1, "include": 2, "redefine": 3, "schema": 4, "types": 5, "definitions": 6}
+
+
+def _intern(table, key, first):
+    i = table.get(key)
+    if i is None:
+        i = table[key] = max([first - 1] + list(table.values())) + 1
+    return i
+
+
+def loader_candidates(data, base_url, url_id):
+    """The elements of one document that could be taken for a reference (local name import / include /
+    redefine, ANY namespace), as Coq `cand` terms for the loader model: path of expanded names, expanded
+    name, schemaLocation and location resolved against the document's URL.  None: ill-formed."""
+    import xml.parsers.expat as expat
+    p = expat.ParserCreate(namespace_separator=" ")
+    p.SetParamEntityParsing(expat.XML_PARAM_ENTITY_PARSING_UNLESS_STANDALONE)
+    p.ExternalEntityRefHandler = lambda *a: 1
+    stack, out = [], []
+
+    def q(name):
+        ns, _, local = name.rpartition(" ")
+        return "(%s, %s)" % (cN(_intern(NS_IDS, ns or None, 3)), cN(_intern(LOCAL_IDS, local, 7)))
+
+    def loc(v):
+        if not v:
+            return copt(None, "url")
+        return copt(cN(url_id(urllib.parse.urljoin(base_url, v) if "://" not in v else v)), "url")
+
+    def start(name, attrs):
+        if name.rpartition(" ")[2] in ("import", "include", "redefine"):
+            out.append("(mkCand %s %s %s %s)" % (clist([q(x) for x in stack], "qn"), q(name),
+                                                 loc(attrs.get("schemaLocation")), loc(attrs.get("location"))))
+        stack.append(name)
+
+    def end(name):
+        stack.pop()
+    p.StartElementHandler = start
+    p.EndElementHandler = end
+    try:
+        p.Parse(bytes(data), True)
+    except expat.ExpatError:
+        return None
+    return out
+
+
+def loader_case(docs, root_url, fetched, ok):
+    ids = {}
+
+    def url_id(u):
+        return _intern(ids, u, 1)
+    items = []
+    url_id(root_url)
+    for u, (_, data) in docs.items():
+        c = loader_candidates(data, u, url_id)
+        if c is not None:
+            items.append("(%s, %s)" % (cN(url_id(u)), clist(c, "cand")))
+    return "(mkLcase %s %s %s %s)" % (cN(url_id(root_url)), clist(items, "url * list cand"),
+                                      clist([cN(url_id(u)) for u in fetched], "url"), cbool(ok))
+
+
 def named_closure(docs, root_url):
     """All documents named, transitively, starting from the one the caller named."""
     named, todo = [], [root_url]
@@ -1700,6 +1767,7 @@ def _run(ck, suds, proof_ok):
     # ---- 4. WSDL + imported / included XSD + imported WSDL through Client(...) -------
     n_load = 500 if thorough else 160
     load_requests_bad = []
+    lcases, lmeta = [], []
     n_named_fetches = 0
     n_lookalike_loads = 0
     for k in range(n_load):
@@ -1757,6 +1825,8 @@ def _run(ck, suds, proof_ok):
             bad = bad or ["expected %r, fetched %r" % (named, fetched)]
         if bad:
             load_requests_bad.append((bad, docs[root_url][1], root_url, via, ctype, named, fetched))
+        lcases.append(loader_case(docs, root_url, fetched, err is None))
+        lmeta.append((docs[root_url][1], root_url, via, ctype, named, fetched, err))
         n_named_fetches += len(fetched)
         ck.count("client-load-" + ("ok" if err is None else "raised"))
         if os.environ.get("C20_DEBUG") and err is not None:
@@ -1802,6 +1872,18 @@ def _run(ck, suds, proof_ok):
     ck.extra["sax_parses_observed"] = Rec.total_parses
     pre = PRE_HEAD + "\n" + q_planted()
     res = ck.run_cases("docs", pre, "case", cases, ["c20_flags_agree", "c20_agrees", "c20_spec_ok"], shard=150)
+    # the loader model on what the store / transport was asked for
+    lres = ck.run_cases("loads", "From SV Require Import Lib.Base C20.Loader.", "lcase", lcases,
+                        ["load_agrees", "load_spec_ok"], shard=100)
+    for i in lres["load_spec_ok"]:
+        data, root_url, via, ctype, named, fetched, err = lmeta[i]
+        if not any(b[2] == root_url and b[1] == data for b in load_requests_bad):
+            load_requests_bad.append(([u for u in fetched if u not in named] or fetched, data, root_url, via, ctype,
+                                      named, fetched))
+    load_model_bad = [i for i in lres["load_agrees"] if i not in set(lres["load_spec_ok"])]
+    for i in range(len(lcases)):
+        ck.seen(("load", lmeta[i][0], lmeta[i][2], lmeta[i][3]), nontrivial=True)
+    ck.count("loader-cases", len(lcases))
 
     # ---- verdicts --------------------------------------------------------------
     spec_bad = set(res["c20_spec_ok"])
@@ -1883,6 +1965,12 @@ def _run(ck, suds, proof_ok):
                         "(%d cases); no document was found on which this has an effect"
                         % (o.entry, o.live, len(flags_bad)),
                         {"entry": o.entry, "document": o.data.decode("utf-8"), "live_external_ges": o.live})
+        elif load_model_bad and not load_requests_bad:
+            data, root_url, via, ctype, named, fetched, err = lmeta[load_model_bad[0]]
+            ck.unproved("a successful load fetched %r, the loader model says exactly %r (%d load(s))"
+                        % (fetched, named, len(load_model_bad)),
+                        {"entry": "client-load", "document": data.decode("utf-8", "replace"), "root_url": root_url,
+                         "via": via, "content_type": ctype, "base": WORLD.base, "port": WORLD.port})
         elif agree_bad:
             o = outcomes[agree_bad[0]]
             ck.unproved("model and implementation disagree on the parsed tree / outcome for %d document(s) "
@@ -1908,6 +1996,8 @@ def replay(ck, payload):
     suds = common.force_repo_path()
     import suds.client   # noqa
     import suds.cache    # noqa
+    import logging
+    logging.getLogger("suds").addHandler(logging.NullHandler())
     WORLD = World()
     WORLD.start()
     install_instrumentation()
